@@ -185,7 +185,7 @@ UndefAttr(v, a) == VUndef([k |-> "attr", n |-> a, o |-> v.t])
 \* obj[key]  : item first, then attribute (string keys only)  (documented)
 GetAttr(s, v, a) ==
     IF v.t = "undef" THEN
-        IF UK = "chainable" THEN R(v, s) ELSE Fail(s, "UndefinedError")
+        IF UKof(v, UK) = "chainable" THEN R(v, s) ELSE Fail(s, "UndefinedError")
     ELSE LET pa == PyAttr(s, v, a) IN
          IF pa.found THEN R(pa.v, s)
          ELSE LET pi == PyItem(s, v, StrKey(a)) IN
@@ -196,7 +196,7 @@ GetAttr(s, v, a) ==
 
 GetItem(s, v, key) ==
     IF v.t = "undef" THEN
-        IF UK = "chainable" THEN R(v, s) ELSE Fail(s, "UndefinedError")
+        IF UKof(v, UK) = "chainable" THEN R(v, s) ELSE Fail(s, "UndefinedError")
     ELSE IF key.t = "undef" /\ v.t \in {"dict", "list", "obj"} THEN
          \* an undefined key is just a key that is not found (hashable, equal only to undefined)
          R(UndefAttr(v, "?"), s)
@@ -299,7 +299,7 @@ Ev(e, s, E) ==
                 IF Bad(tt) THEN tt
                 ELSE IF tt.v.b THEN Ev(e.a, tt.S, E)
                 ELSE IF Has(e, "b") THEN Ev(e.b, tt.S, E)
-                ELSE R(VUndef([k |-> "hint", n |-> "the inline if-expression evaluated to false and no else section was defined"]), tt.S)
+                ELSE R(VUndef([k |-> "condelse", n |-> "the inline if-expression evaluated to false and no else section was defined"]), tt.S)
       [] e.k = "concat" ->
            LET r == EvList(e.items, s, E) IN
            IF Bad(r) THEN R(VNone, r.S) ELSE Lift(Concat(r.v, E.auto, UK), r.S)
@@ -352,8 +352,8 @@ CallValue(f, args, kw, s, E) ==
            IF f.n = "range" THEN
                IF kw.n # <<>> \/ Len(args) \notin {1, 2} THEN Fail(s, "EXCLUDED")
                ELSE IF \E i \in 1..Len(args) : args[i].t # "int" THEN Fail(s, "EXCLUDED")
-               ELSE IF Len(args) = 1 THEN R(VList(RangeList(0, args[1].n)), s)
-               ELSE R(VList(RangeList(args[1].n, args[2].n)), s)
+               ELSE IF Len(args) = 1 THEN R(VRange(RangeList(0, args[1].n)), s)
+               ELSE R(VRange(RangeList(args[1].n, args[2].n)), s)
            ELSE IF f.n = "namespace" THEN
                IF args # <<>> THEN Fail(s, "EXCLUDED")
                ELSE R([t |-> "ns", id |-> Len(s.ns) + 1],
@@ -458,7 +458,7 @@ JoinWith(parts, sep, i, acc) ==
 IterItems(v) ==
     CASE v.t = "list" -> [ok |-> TRUE, v |-> v.v, err |-> ""]
       [] v.t = "dict" -> [ok |-> TRUE, v |-> v.k, err |-> ""]
-      [] v.t = "undef" -> IF UK = "strict" THEN Err("UndefinedError") ELSE [ok |-> TRUE, v |-> <<>>, err |-> ""]
+      [] v.t = "undef" -> IF UKof(v, UK) = "strict" THEN Err("UndefinedError") ELSE [ok |-> TRUE, v |-> <<>>, err |-> ""]
       [] v.t \in {"int", "bool", "none"} -> Err("TypeError")
       [] OTHER -> Err("EXCLUDED")
 
@@ -483,7 +483,7 @@ ApplyFilter(n, v, args, kw, s, E) ==
       [] n \in {"length", "count"} ->
            CASE v.t = "list" -> R(VInt(Len(v.v)), s)
              [] v.t = "dict" -> R(VInt(Len(v.k)), s)
-             [] v.t = "undef" -> IF UK = "strict" THEN Fail(s, "UndefinedError") ELSE R(VInt(0), s)
+             [] v.t = "undef" -> IF UKof(v, UK) = "strict" THEN Fail(s, "UndefinedError") ELSE R(VInt(0), s)
              [] v.t \in {"int", "bool", "none"} -> Fail(s, "TypeError")
              [] OTHER -> Fail(s, "EXCLUDED")
       [] n = "first" ->
@@ -570,10 +570,11 @@ ApplyTest(n, v, args, s, E) ==
       [] n = "string" -> R(VBool(v.t = "str"), s)
       [] n = "mapping" -> IF v.t \in {"obj", "fn", "module"} THEN Fail(s, "EXCLUDED") ELSE R(VBool(v.t = "dict"), s)
       [] n = "sequence" -> IF v.t \in {"obj", "fn", "module", "loop", "ns"} THEN Fail(s, "EXCLUDED")
-                           ELSE IF v.t = "undef" /\ UK = "strict" THEN R(VBool(FALSE), s)
+                           ELSE IF v.t = "undef" /\ UKof(v, UK) = "strict" THEN R(VBool(FALSE), s)
                            ELSE R(VBool(v.t \in {"str", "list", "dict", "undef"}), s)
       [] n = "iterable" -> IF v.t \in {"obj", "fn", "module", "loop", "ns"} THEN Fail(s, "EXCLUDED")
-                           ELSE IF v.t = "undef" /\ UK = "strict" THEN R(VBool(FALSE), s)
+                           \* iterating a strict undefined raises (documented); only TypeError means "not iterable"
+                           ELSE IF v.t = "undef" /\ UKof(v, UK) = "strict" THEN Fail(s, "UndefinedError")
                            ELSE R(VBool(v.t \in {"str", "list", "dict", "undef"}), s)
       [] n = "callable" -> IF v.t \in {"obj", "module", "ns", "loop", "undef"} THEN Fail(s, "EXCLUDED")
                            ELSE R(VBool(v.t \in {"fn", "macro", "builtin", "bref", "loopcycle"}), s)
@@ -755,9 +756,11 @@ Ex(st, s, E) ==
       [] st.k = "out" ->
            LET r == Ev(st.e, s, E) IN
            IF Bad(r) THEN r.S
-           ELSE LET o == OutputOf(r.v, E.auto, UK) IN
-                IF ~o.ok THEN Fail(r.S, o.err).S
-                ELSE IF Suppressed(r.S, E) THEN r.S ELSE Emit(r.S, o.v.s)
+           ELSE LET o == OutputOf(r.v, E.auto, UK)
+                    s1 == IF Fld(Case, "emit_values", FALSE) /\ r.v.t \in {"int", "bool", "none", "str", "list", "dict", "undef", "obj", "fn"}
+                          THEN Log(r.S, <<"value", r.v>>) ELSE r.S IN
+                IF ~o.ok THEN Fail(s1, o.err).S
+                ELSE IF Suppressed(s1, E) THEN s1 ELSE Emit(s1, o.v.s)
       [] st.k = "if" ->
            \* branches share the enclosing scope
            LET RECURSIVE Br(_, _)
